@@ -85,13 +85,50 @@ pub mod convert {
 use super::*;
 pub open spec fn digits_below(s: Seq<u8>, radix: u32) -> bool { forall|i: int| 0 <= i < s.len() ==> (#[trigger] s[i] as u32) < radix }
 
-//@ assume ilog2 : generic over num_traits::PrimInt (fls(v) - 1 via leading_zeros of an external trait); contract: floor(log2 v), exact for powers of two
-#[verifier::external_body]
-fn ilog2(v: u32) -> (r: u8)
+/// for a power of two v, 31 - leading_zeros(v) is its exponent
+pub proof fn lemma_ilog2(v: u32)
+    requires v >= 1
+    ensures ({ let r = (31 - vstd::std_specs::bits::u32_leading_zeros(v)) as u8; r < 32 && (is_pow2_u32(v) ==> (1u32 << r) == v) })
+{
+    vstd::std_specs::bits::axiom_u32_leading_zeros(v);
+    let lz = vstd::std_specs::bits::u32_leading_zeros(v);
+    assert(lz < 32);
+    let lzu = lz as u32;
+    let r: u32 = sub(31u32, lzu);
+    assert(r == (31 - lz) as u32);
+    assert((v >> r) & 1 != 0);
+    assert((v >> r) & 1 == 1) by (bit_vector) requires (v >> r) & 1 != 0;
+    if is_pow2_u32(v) {
+        let w = (v - 1) as u32;
+        assert(v == 1u32 << r) by (bit_vector) requires r < 32, (v >> r) & 1 == 1, v & w == 0, w == sub(v, 1u32), v != 0;
+    }
+}
+// the generic helpers fls / ilog2 (T: PrimInt, num_traits) as their only instance in use, T = u32
+//@ extract src/biguint/convert.rs :: fn fls tysub=<T:PrimInt>=>;v:T=>v:u32;mem::size_of::<T>()=>4usize props=C06,C14
+fn fls(v: u32) -> /*+*/(r: /*-*/u8/*+*/)/*-*/
+//+{
+    ensures r as int == 32 - vstd::std_specs::bits::u32_leading_zeros(v) as int
+//+}
+{
+//+{
+    proof { vstd::std_specs::bits::axiom_u32_leading_zeros(v); }
+//+}
+    4usize as u8 * 8 - v.leading_zeros() as u8
+}
+//@ end
+//@ extract src/biguint/convert.rs :: fn ilog2 tysub=<T:PrimInt>=>;v:T=>v:u32 props=C06,C14
+fn ilog2(v: u32) -> /*+*/(r: /*-*/u8/*+*/)/*-*/
+//+{
     requires v >= 1
     ensures r < 32, is_pow2_u32(v) ==> (1u32 << r) == v
-{ unimplemented!() }
-
+//+}
+{
+//+{
+    proof { lemma_ilog2(v); vstd::std_specs::bits::axiom_u32_leading_zeros(v); }
+//+}
+    fls(v) - 1
+}
+//@ end
 //@ stub u_digits/to_bitwise_digits_le
 
 //@ stub u_digits/to_inexact_bitwise_digits_le
